@@ -78,6 +78,50 @@ def run_one(job):
 
     path = job["path"]
     out = {"path": path, "argv": job["argv"], "records": [], "c18": [], "status": "ok"}
+    if job.get("derive"):
+        # boundary option values: a prefix / suffix exception cut out of a token the rule really targets, placed so that
+        # the character next to the cut also occurs inside the prefix / suffix
+        try:
+            import yaml
+
+            rid = job["derive"]
+            with contextlib.redirect_stdout(io.StringIO()), contextlib.redirect_stderr(io.StringIO()):
+                lines0, _ = vu.read_vhdlfile(path)
+                o0 = vhdlFile.vhdlFile(lines0)
+                rl0 = rule_list.rule_list(o0, severity.create_list({}))
+                r0 = next(x for x in rl0.rules if x.unique_id == rid)
+                vals = set()
+                for case in ("upper", "lower"):
+                    r0.case = case
+                    r0.violations = []
+                    r0.analyze(o0)
+                    for v in r0.violations:
+                        try:
+                            vals.add(v.get_tokens()[(v.get_action() or {}).get("index", 0)].get_value())
+                        except Exception:
+                            pass
+            cands = []
+            for w in sorted(vals):
+                for k in range(2, len(w) - 1):
+                    if w[k - 1].lower() in w[k:].lower():
+                        cands.append(("suffix_exceptions", w[k:]))
+                    if w[k].lower() in w[:k].lower():
+                        cands.append(("prefix_exceptions", w[:k]))
+            if not cands:
+                out["status"] = "no-derived-option"
+                return out
+            import random
+
+            a, v = random.Random(path + rid).choice(cands)
+            opts = {a: [v], "case": random.Random(path).choice(["upper", "lower"])}
+            with open(job["derive_cfg"], "w") as fh:
+                fh.write(yaml.safe_dump({"rule": {rid: opts}}))
+            job["argv"] = list(job["argv"]) + ["-c", job["derive_cfg"]]
+            out["derived_options"] = opts
+        except Exception as e:
+            out["status"] = "no-derived-option"
+            out["exception"] = repr(e)[:200]
+            return out
     ab = Abstraction(job["roles"])
     sink = io.StringIO()
     try:
